@@ -56,3 +56,29 @@ Proof.
   - rewrite E. reflexivity.
   - destruct (Z.eqb_spec (Z.of_nat (mw_act m)) 0); [lia|reflexivity].
 Qed.
+
+(* job_type_utils.all_operations_done / no_operation_idle / is_job_running, core_utils.no_processing_operations *)
+Theorem gen_all_operations_done_eq : forall jb, gen_all_operations_done jb = all_operations_done jb.
+Proof. reflexivity. Qed.
+Theorem gen_no_operation_idle_eq : forall jb, gen_no_operation_idle jb = no_operation_idle jb.
+Proof. reflexivity. Qed.
+Theorem gen_is_job_running_eq : forall jb, gen_is_job_running jb = is_job_running jb.
+Proof. reflexivity. Qed.
+Theorem gen_no_processing_operations_eq : forall jb, gen_no_processing_operations jb = negb (is_job_running jb).
+Proof.
+  intros jb. unfold gen_no_processing_operations, is_job_running. induction (j_ops jb) as [|o r IH]; simpl; [reflexivity|].
+  rewrite IH. unfold is_ostate. destruct (ostate_eqb (o_st o) OProc); reflexivity.
+Qed.
+
+(* job_type_utils.is_done and core_utils.is_done (the termination test, after fix 7fd110d) *)
+Theorem gen_job_is_done_eq : forall i jb, gen_job_is_done i jb = job_is_done i jb.
+Proof. reflexivity. Qed.
+Theorem gen_is_done_eq : forall i x, gen_is_done i x = all_in_output i x.
+Proof. reflexivity. Qed.
+
+(* buffer_type_utils.get_next_job_from_buffer *)
+Theorem gen_next_job_eq : forall b ty, gen_next_job (b_store b) ty = get_next_job_from_buffer b ty.
+Proof.
+  intros b ty. unfold gen_next_job, get_next_job_from_buffer, last_error. destruct (b_store b) as [|h r]; [reflexivity|].
+  destruct ty; reflexivity.
+Qed.
